@@ -16,8 +16,8 @@ NAMES = "prqlc/prqlc/src/semantic/resolver/names.rs"
 MODULE = "prqlc/prqlc/src/semantic/module.rs"
 FUNCTIONS_RS = "prqlc/prqlc/src/semantic/resolver/functions.rs"
 
-LABELS = ["RG1", "RG2", "RG3", "LK1", "LK2", "AA1", "AA2", "FA1", "FA2", "FA3", "RF1", "RF2", "RF3"]
-FUNCTIONS = ["resolve_ident_core", "lookup", "apply_args_to_closure", "arity_gate", "fallback_decide"]
+LABELS = ["RG1", "RG2", "RG3", "LK1", "LK2", "AA1", "AA2", "FA1", "FA2", "FA3", "RF1", "RF2", "RF3", "GA1", "GA2"]
+FUNCTIONS = ["resolve_ident_core", "lookup", "apply_args_to_closure", "arity_gate", "fallback_decide", "relation_frame_gate"]
 RLIMIT = 80
 
 ASSUMED = [
@@ -36,9 +36,15 @@ ASSUMED = [
      "keys": ["struct ArgMap", "fn keys", "fn consume_named_params", "spec fn named_param_keys", "fn first_entry", "fn vec_extend", "fn fmt_unknown_named", "struct PlExpr"]},
     {"what": "arity gate: expr_of_func (wraps an unsaturated closure as a function value), as_debug_name and Error::with_span are external; "
              "is_func_value() marks the expression expr_of_func builds", "keys": ["fn expr_of_func", "spec fn is_func_value", "fn too_many_error", "enum Gate"]},
+    {"what": "relation arguments: the argument is the skeleton ArgExpr {lineage, kind: Array / Tuple / Other, span}; Module::insert_frame is external and logs (GHOST) the frame and the "
+             "namespace it was inserted under; the error values are built by external functions",
+     "keys": ["struct LineageShim", "fn insert_frame", "fn expected_error", "fn bug_error", "fn str_to_string2"]},
     common_std.STR_PREDS_ASSUMPTION,
 ]
 TRUSTED = [
+    "oracle (C10, GA1-2): a value given where a function expects a RELATION (the table of from / join / append, the input of every transform) must BE a relation - an expression "
+    "with a frame; anything else is rejected here, where the frames of the relational arguments are brought into scope; a relation's frame is inserted as `this` when it is the last "
+    "relational argument and as `that` otherwise",
     "oracle (C10): a name resolves only when it has exactly one candidate - two or more candidates are an error, never an arbitrary pick; the "
     "candidates of a name in a module are the direct hits PLUS the hits through every redirect (this / that / _param / std, named inputs); a call "
     "with a named argument that no named parameter consumes is an error",
@@ -80,7 +86,7 @@ pub fn take_one(s: IdentSet) -> (r: Ident) requires s.view().len() == 1, s.view(
 
 RESOLVER_SHIM = r"""
 // ---------------------------------------------------------------- Module / Resolver shims
-pub struct Module { pub redirects: Vec<Ident> }
+pub struct Module { pub redirects: Vec<Ident>, pub frames: Ghost<Seq<(LineageShim, Seq<char>)>> }
 pub uninterp spec fn direct(m: Module, i: Ident) -> ISet<Ident>;     // what the nested lookup_in finds for exactly this path
 #[verifier::external_body]
 pub fn lookup_in(module: &Module, ident: Ident) -> (r: IdentSet) ensures r.view() == direct(*module, ident), { unimplemented!() }
@@ -90,6 +96,20 @@ pub open spec fn cand(m: Module, i: Ident) -> ISet<Ident> {
     ISet::new(|x: Ident| direct(m, i).contains(x) || exists|k: int| 0 <= k < m.redirects@.len() && direct(m, concat_id(#[trigger] m.redirects@[k], i)).contains(x))
 }
 
+#[verifier::external_body] pub struct LineageShim { _p: u8 }
+impl Module {
+    #[verifier::external_body]
+    pub fn insert_frame(&mut self, frame: &LineageShim, ns: &str)
+        ensures final(self).frames@ == old(self).frames@.push((*frame, ns@)), final(self).redirects == old(self).redirects,
+    { unimplemented!() }
+}
+pub const NS_THIS: &'static str = "this";
+pub const NS_THAT: &'static str = "that";
+pub enum ArgKind { Array(Vec<OpaqueT>), Tuple(Vec<OpaqueT>), Other(OpaqueT) }
+pub struct ArgExpr { pub lineage: Option<LineageShim>, pub kind: ArgKind, pub span: Option<Span> }
+#[verifier::external_body] pub fn expected_error() -> Error { unimplemented!() }
+#[verifier::external_body] pub fn bug_error() -> Error { unimplemented!() }
+#[verifier::external_body] pub fn str_to_string2(s: &str) -> String { unimplemented!() }
 pub struct RootModule { pub module: Module }
 pub struct Resolver { pub root_mod: RootModule }
 impl Resolver {
@@ -278,4 +298,77 @@ def build(X):
                "        decls.view().len() == 1 ==> exists|t: Ident| decls.view().contains(t) && (match inferred(t, *ident) { Ok(i) => r == Ok::<Ident, Option<Error>>(i), Err(_) => r is Err && r->Err_0 is Some }), // @RF3\n"
                "{\n    " + fb.text + "\n}\n}\n")
     fb.rewrites.append({"rule": "slice", "what": "`match decls.len() { .. }` (tail expression of resolve_ident_fallback) wrapped as fn fallback_decide(&mut self, decls, ident)"})
-    return PRELUDE + RESOLVER_SHIM + ric_impl + lk_impl + FUNC_SHIM + aa_impl + ag.text + fb.text + "\n} // verus!\nfn main() {}\n"
+    # ---- relational arguments: a value without a frame is rejected, a frame goes to `this` / `that`
+    ga = X.if_blocks(FUNCTIONS_RS, "resolve_function_args", "if partial_application_position.is_none() {\n                    let frame", name="relation_frame_gate", need_else=False)[0] \
+        if "if partial_application_position.is_none() {\n                    let frame" in X.read(FUNCTIONS_RS) else None
+    if ga is None:
+        # the statement the block starts with has changed: take the block that follows `for (index, arg, is_last) in resolved_relations {`
+        ga = X.slice(FUNCTIONS_RS, "resolve_function_args", "for (index, arg, is_last) in resolved_relations {", "closure.args[index] = arg;", name="relation_frame_gate", include_end=False)
+        mg = re.search(r"if partial_application_position\.is_none\(\) \{", ga.text)
+        if not mg:
+            raise ExtractionError("resolve_function_args: the block `if partial_application_position.is_none() { .. }` of the loop over the relational arguments was not found")
+        gtoks = code_tokens(ga.text)
+        kg = next(i for i, t in enumerate(gtoks) if t[1] == mg.end() - 1)
+        ga.text = ga.text[gtoks[kg][2]:gtoks[match_brace(ga.text, gtoks, kg)][1]]
+    ga.rewrite_re("R5", r"Error::new\(Reason::Expected \{(?:[^{}\"]|\"[^\"]*\")*\}\)\s*\.with_span\(arg\.span\)", "expected_error()", count=None, why="error construction")
+    ga.rewrite_re("R5", r"Error::new_bug\(4317\)\.with_span\(closure\.body\.span\)", "bug_error()", count=None, why="error construction")
+    ga.rewrite_re("R6", r"\bExprKind::(Array|Tuple)\b", r"ArgKind::\1", count=None, why="skeleton of pl::ExprKind")
+    ga.rewrite_re("R5", r"(\"[^\"]*\")\.to_string\(\)", r"str_to_string2(\1)", count=None, why="str::to_string")
+    ga.rewrite_re("R5", r"\bfound\.to_string\(\)", "str_to_string2(found)", count=None, why="str::to_string")
+    ga.desugar_option_closures()
+    ga.text = ("impl Resolver {\npub fn relation_frame_gate(&mut self, arg: &ArgExpr, is_last: bool) -> (r: Result<(), Error>)\n"
+               "    ensures\n"
+               "        // C10: a value without a frame where a relation is required is an error\n"
+               "        arg.lineage is None ==> r is Err, // @GA1\n"
+               "        // a relation's frame comes into scope as `this` (last relational argument) or `that`\n"
+               "        arg.lineage is Some ==> (r is Ok && final(self).root_mod.module.frames@ == old(self).root_mod.module.frames@.push((arg.lineage->0, if is_last { \"this\"@ } else { \"that\"@ }))), // @GA2\n"
+               "{\n    " + ga.text + "\n    Ok(())\n}\n}\n")
+    ga.rewrites.append({"rule": "slice", "what": "then-block of `if partial_application_position.is_none() { .. }` in the loop of resolve_function_args that brings the frames of the relational arguments into scope, "
+                        "wrapped as fn relation_frame_gate(&mut self, arg, is_last)"})
+    return PRELUDE + RESOLVER_SHIM + ric_impl + lk_impl + FUNC_SHIM + aa_impl + ag.text + fb.text + ga.text + "\n} // verus!\nfn main() {}\n"
+
+
+# ----------------------------------------------------------------------------- replay on the real compiler: programs that must be REJECTED (an error, not SQL, not a panic)
+REJECT = [
+    'from (text.length "abc")\nselect {n = 1}\n',
+    "from employees\nappend (math.floor 2.5)\n",
+    "from employees\nderive {z = 1} 5\n",
+    "from employees\nselect {a = 1}\nfilter b > 1\n",                                     # b left the frame
+    "from x\njoin y (==id)\nselect {id}\n",                                              # ambiguous
+    "from x\nselect {a}\nderive {b = a + 1}\nselect {b}\nsort a\n",                         # a left the frame
+    "from x\nderive {y = foo a}\n",                                                       # unknown function
+    "let f = p q:1 -> p + q\nfrom x\nderive {y = f a r:2}\n",                             # unknown named argument
+    # a derive that redefines a name un-names EVERY earlier column of that name (both sides of the join)
+    "from a\nselect {x, y}\njoin (from b | select {x, z}) (a.x == b.x)\nderive x = a.x + b.x\nselect {b.x}\n",
+    "from a\nselect {x, y}\njoin (from b | select {x, z}) (a.x == b.x)\nderive x = a.x + b.x\nselect {a.x}\n",
+]
+
+
+def _reject(src):
+    import replaylib
+    ok, out = replaylib.compile_prql(src, "sql.sqlite")
+    return {"input": src, "expected": "an error (the program is ill-scoped / ill-typed)", "observed": out[:300], "failing": ok or out.startswith("PANIC"), "replay_kind": "reject"}
+
+
+def replay(failure):
+    for src in REJECT:
+        r = _reject(src)
+        if r["failing"]:
+            return r
+    return {"failing": False}
+
+
+def rerun(doc):
+    return _reject(doc["input"])
+
+
+SWEEP_DOC = "ill-scoped / ill-typed programs (a scalar where a relation is required, a column that left the frame, an ambiguous name, unknown function / named argument): the real prqlc must answer with an error, never with SQL or a panic"
+
+
+def sweep():
+    out = []
+    for src in REJECT:
+        r = _reject(src)
+        r["obligation"] = "resolve_guards.GA1" if "(" in src.split("\n")[0] or "5" in src else "resolve_guards.RG1"
+        out.append(r)
+    return out
